@@ -27,6 +27,9 @@ type history struct {
 	// twin: after a construction from shared values, what distinguishes the new instance from one built from FRESH values
 	// with the same options (nil: not applicable)
 	twin func() []string
+	// overlap: the arguments of the running call; a deterministic interleaving reports there which of its requests were
+	// answered differently from a request that is alone (behaviour of the shared instance under concurrent use)
+	overlap *Args
 }
 
 func progEntry(d Desc) string {
@@ -120,6 +123,12 @@ func (h *history) observed(l *hx.Line, acting *Instance, extra []Supplied, step 
 		if b0[k] != b1[k] {
 			bch = append(bch, k)
 		}
+	}
+	if h.overlap != nil {
+		bch = append(bch, h.overlap.Overlap...)
+	}
+	if strings.HasPrefix(res, "foreign-state:") || strings.HasPrefix(res, "binding:") {
+		bch = append(bch, "answer:"+res) // the answer of THIS request carries state of another request
 	}
 	sort.Strings(bch)
 	sort.Strings(sch)
@@ -232,7 +241,12 @@ func (h *history) call(o *Op, in *Instance) *hx.Line {
 	}
 	a := h.w.Prepare(o, in, h.r, true)
 	l.S("arg", a.Desc)
+	if strings.HasSuffix(o.Entry, "overlap") {
+		l.S("sched", "overlap") // two requests of this kind in a fixed interleaving on the one instance
+	}
+	h.overlap = a
 	h.observed(l, in, a.Supplied, func() string { return o.Run(h.w, in, a) })
+	h.overlap = nil
 	return l
 }
 
@@ -331,6 +345,34 @@ func SeqStream(w *World, r *hx.Rand, tier string, n int, emit func(*hx.Line)) ma
 			out(h.constructShared("prov", "op.NewProvider", ProviderOpts, ps))
 			out(h.constructShared("prov", "op.NewProvider", ProviderOpts[:8], &ProvShare{Issuer: "op.IssuerFromHost", Opts: all, Storage: true}))
 			stats["construct.provider-shared"] += 3
+		}
+		// refused authorization requests across two providers and both routers: every answer carries its own state only, and
+		// the answers of the OTHER provider (both routers) are the same before and after (Behave probes)
+		h = newHist()
+		out(h.construct("prov", "op.NewProvider", []string{"op.WithLogger"}))
+		out(h.construct("prov", "op.NewOpenIDProvider", []string{"op.WithLogger", "op.WithAllowInsecure"}))
+		for i, e := range []string{"op.Authorize.refused", "op.LegacyServer.Authorize.refused", "op.Authorize.refused", "op.LegacyServer.Authorize.refused"} {
+			for v := 0; v < 3; v++ {
+				w.ForceVariant = v
+				out(h.call(OpByEntry(e), h.insts[i%2]))
+				stats["call.refused"]++
+			}
+		}
+		for v := 0; v < 3; v++ {
+			w.ForceVariant = v
+			out(h.call(OpByEntry("op.Authorize.refused-overlap"), h.insts[0]))
+		}
+		w.ForceVariant = -1
+		// relying parties with PKCE: one AuthURLHandler / CodeExchangeHandler value serves all requests
+		h = newHist()
+		out(h.construct("rp", "rp.NewRelyingPartyOAuth", []string{"rp.WithPKCE"}))
+		out(h.construct("rp", "rp.NewRelyingPartyOIDC", []string{"rp.WithPKCE", "rp.WithHTTPClient"}))
+		for i := 0; i < 2; i++ {
+			out(h.call(OpByEntry("rp.AuthURLHandler.shared"), h.insts[i]))
+			out(h.call(OpByEntry("rp.AuthURLHandler.overlap"), h.insts[i]))
+			out(h.call(OpByEntry("rp.CodeExchangeHandler.shared"), h.insts[i]))
+			out(h.call(OpByEntry("rp.AuthURLHandler.shared"), h.insts[1-i]))
+			stats["call.rp-handlers"] += 4
 		}
 		h = newHist() // RP with the package default client: logout / revocation, then later calls
 		out(h.construct("rp", "rp.NewRelyingPartyOIDC", nil))
@@ -472,6 +514,8 @@ type Mix struct {
 	Fresh         bool // goroutines start immediately after construction, nothing is used before (first-use race window)
 	// ShareIssuer: the instance AND the concurrently constructed providers are built from the same issuer factory value
 	ShareIssuer string
+	// Second: half of the goroutines run the operations on a second, independent provider (cross-provider isolation)
+	Second bool
 }
 
 var Mixes = []Mix{
@@ -508,6 +552,14 @@ var Mixes = []Mix{
 		CKind: "prov", CEntry: "op.NewProvider", COpts: []string{"op.WithLogger", "op.WithAllowInsecure"}},
 	{Name: "rp-construct-same-config", Kind: "rp", Entry: "rp.NewRelyingPartyOAuth", Opts: []string{"rp.WithHTTPClient"}, Ops: []string{"rp.AuthURL", "rp.ClientCredentials"},
 		CKind: "rp", CEntry: "rp.NewRelyingPartyOAuth", COpts: []string{"rp.WithHTTPClient", "rp.WithAuthStyle"}},
+	{Name: "provider-refused", Kind: "prov", Entry: "op.NewProvider", Opts: []string{"op.WithLogger"},
+		Ops: []string{"op.Authorize.refused", "op.LegacyServer.Authorize.refused", "op.Authorize"}},
+	{Name: "provider-refused-two-providers", Kind: "prov", Entry: "op.NewProvider", Opts: []string{"op.WithLogger"},
+		Ops: []string{"op.Authorize.refused", "op.LegacyServer.Authorize.refused"}, Second: true},
+	{Name: "rp-pkce-handlers", Kind: "rp", Entry: "rp.NewRelyingPartyOAuth", Opts: []string{"rp.WithHTTPClient", "rp.WithPKCE"},
+		Ops: []string{"rp.AuthURLHandler.shared", "rp.CodeExchangeHandler.shared", "rp.AuthURL"}},
+	{Name: "rp-oidc-pkce-handlers", Kind: "rp", Entry: "rp.NewRelyingPartyOIDC", Opts: []string{"rp.WithHTTPClient", "rp.WithPKCE"},
+		Ops: []string{"rp.AuthURLHandler.shared", "rp.CodeExchangeHandler.shared", "rp.CodeExchange"}},
 	{Name: "device-state-getters", Kind: "fnstate", Ops: []string{"op.DeviceAuthorizationState.GetScopes"}},
 	{Name: "device-state-audience", Kind: "fnstate", Ops: []string{"op.DeviceAuthorizationState.GetAudience", "op.DeviceAuthorizationState.GetScopes"}},
 }
@@ -572,8 +624,13 @@ func RunMix(w *World, m *Mix, r *hx.Rand, goroutines, iters int) *hx.Line {
 
 	// arguments are prepared before the goroutines start; tokens / codes are single use, so one set per call
 	type job struct {
-		o *Op
-		a *Args
+		o  *Op
+		a  *Args
+		in *Instance
+	}
+	var in2 *Instance
+	if m.Second && in != nil && in.Prov != nil {
+		in2 = w.BuildProvider("op.NewOpenIDProvider", []string{"op.WithLogger", "op.WithAllowInsecure"})
 	}
 	plan := make([][]job, goroutines)
 	if !m.Fresh && in != nil && in.KS != nil {
@@ -586,7 +643,11 @@ func RunMix(w *World, m *Mix, r *hx.Rand, goroutines, iters int) *hx.Line {
 			if a == nil {
 				a = w.Prepare(o, in, r, true)
 			}
-			plan[g] = append(plan[g], job{o, a})
+			on := in
+			if in2 != nil && in2.Err == nil && g%2 == 1 {
+				on = in2
+			}
+			plan[g] = append(plan[g], job{o, a, on})
 		}
 	}
 	var wg sync.WaitGroup
@@ -605,7 +666,7 @@ func RunMix(w *World, m *Mix, r *hx.Rand, goroutines, iters int) *hx.Line {
 							res = "panic"
 						}
 					}()
-					return j.o.Run(w, in, j.a)
+					return j.o.Run(w, j.in, j.a)
 				}()
 				mu.Lock()
 				results[j.o.Entry+":"+res]++
